@@ -39,3 +39,31 @@ class Known:
 
     def is_known(self, sig):
         return self.match(sig) is not None
+
+
+def merge():
+    """Coordinator only, never at run time: moves the entries of known/<ID>.json into known_findings.json (the single
+    committed known-findings file) and removes the per-property files.    PYTHONPATH=/verif python3-vt -m vf.known"""
+    import glob
+    with open(PATH) as f:
+        doc = json.load(f)
+    seen = set((e["property"], e["kind"], e["signature"], e.get("input")) for e in doc["findings"])
+    n = 0
+    for path in sorted(glob.glob("/verif/known/*.json")):
+        with open(path) as f:
+            for e in json.load(f)["findings"]:
+                k = (e["property"], e["kind"], e["signature"], e.get("input"))
+                if k not in seen:
+                    seen.add(k)
+                    doc["findings"].append(e)
+                    n += 1
+        os.remove(path)
+    doc["findings"].sort(key=lambda e: (e["property"], e["kind"] != "known"))
+    with open(PATH, "w") as f:
+        json.dump(doc, f, indent=1)
+        f.write("\n")
+    print("merged %d entries; %d in total" % (n, len(doc["findings"])))
+
+
+if __name__ == "__main__":
+    merge()
